@@ -27,7 +27,7 @@ import (
 
 // SamLineCorruption damages line P of a valid SAM file.
 type SamLineCorruption struct {
-	Kind  string `json:"kind"` // fewfields | badint | tagcolons | tagtype | tagvalue
+	Kind  string `json:"kind"` // fewfields | badint | tagcolons | tagtype | tagvalue | wsline
 	Arg   int    `json:"arg"`
 	Text  string `json:"text"`
 	AtTag bool   `json:"at_tag,omitempty"`
@@ -238,9 +238,11 @@ func genC11(t *rapid.T, thorough bool) C11Case {
 	return c
 }
 
-var samCorrKinds = []string{"fewfields", "badint", "tagcolons", "tagtype", "tagvalue"}
+var samCorrKinds = []string{"fewfields", "badint", "tagcolons", "tagtype", "tagvalue", "wsline"}
 var samCorrTexts = map[string][]string{
 	"fewfields": {""},
+	// a line of white space only is not an empty line: it has too few fields
+	"wsline":    {"\t", "\t\t", " ", "  \t ", "\t\t\t\t\t\t\t\t\t\t", "\v", "\f"},
 	"badint":    {"x", "1.5", "", "12a", "--1", "0x1F", "1e3", " 1", "9223372036854775808", "1 ", "-", "+", "+-1", "-+1", "*", ".", "1_000", "\u0661"},
 	"tagcolons": {"XX", "XX:i", "XXi1", "X", "", "XX:Z", "XX:H", "XX:B", "XX:A", "XX:f", "Z:XX", ":Z"},
 	"tagtype":   {"XX:Q:1", "XX::1", "XX:ii:1", "XX:I:1", "XX:z:a", ":X:i:5", "a::Z:v", ":a:Z:v", "::Z:v", "X::i:5", "::::", ":::"},
@@ -478,6 +480,8 @@ func checkSamLine(c C11Case, o *Obs) error {
 	switch cr.Kind {
 	case "fewfields":
 		fields = fields[:1+cr.Arg%10] // keep the first 1..10 fields
+	case "wsline":
+		fields = []string{cr.Text}
 	case "badint":
 		idx := []int{1, 3, 4, 7, 8}[cr.Arg%5]
 		if _, err := strconv.Atoi(cr.Text); err == nil {
@@ -510,9 +514,19 @@ func checkSamLine(c C11Case, o *Obs) error {
 	all := append([]string{}, lines...)
 	all[p] = bad
 	text := []byte(strings.Join(all, "\n") + "\n")
-	for _, name := range []string{"sam", "samh"} {
-		codec := codecs[name]
-		items, over, pn := collect(func(cb func(Item) bool) { codec.Reader(bytes.NewReader(text), cb) }, len(c.Recs)+4)
+	defer cleanupTemp()
+	path := writeTemp(text, ".sam")
+	for _, name := range []string{"sam", "samh", "sam-file", "samh-file"} {
+		codec := codecs[strings.TrimSuffix(name, "-file")]
+		run := func(cb func(Item) bool) { codec.Reader(bytes.NewReader(text), cb) }
+		if strings.HasSuffix(name, "-file") {
+			// File and FileHeader too (every other case, to keep the file traffic low)
+			if (cr.Arg+p)%2 == 1 {
+				continue
+			}
+			run = func(cb func(Item) bool) { codec.File(path, cb) }
+		}
+		items, over, pn := collect(run, len(c.Recs)+4)
 		if pn != nil {
 			return fmt.Errorf("%s reader panicked on a file with malformed line %q: %v", name, bad, pn)
 		}
@@ -527,7 +541,7 @@ func checkSamLine(c C11Case, o *Obs) error {
 				continue
 			}
 			w := want[i]
-			if name == "samh" {
+			if strings.HasPrefix(name, "samh") {
 				w = "samh|S|" + w
 			}
 			if it.Err != nil || it.Rec != w {
